@@ -2,13 +2,18 @@
 
 Design side: TLC checks the write pipeline of spec/Durability.tla (tmp.data append+fsync, async bitcask writer with its
 three index steps, stable pointer in LevelDB, in-place context.data flush, recovery as a sequence of steps, Crash /
-TornCrash anywhere, also during recovery) against Opens / StableNotOlder / StableClosed / AccountsExact /
-ContextFresh.  With the repair flags ON (the deviation-free design) they hold; with the flags OFF (= what the code
-does) TLC must find the known counterexamples (negative controls).
+TornCrash anywhere, also during recovery) against Opens / StableNotOlder / StableClosed / DurablyClosed / PendingScanned /
+OffsetAtEnd / AccountsExact / ContextFresh.  With the repair flags ON (the deviation-free design) they hold; with the flags
+OFF (= what the code does) TLC must find the known counterexamples (negative controls).  Every record carries a length class
+relative to the 256-byte alignment of tmp.data and the bitcask files (below / on / above a boundary), tmp.data and the data
+file are sequences of slots, the recovery scan walks tmp.data record by record; a scan stride or a bitcask advance that is
+wrong exactly on / above a boundary are negative controls.
 
 Binding: real crash-point enumeration.  The verif hook in /repo/store counts every write / fsync / LevelDB Put of the
 pipeline and kills the workload SUB-PROCESS at the k-th one (optionally inside the write: torn).  A fresh process
-reopens the directory, logs what the real code presents and then feeds the rest of the workload.  Every
+reopens the directory, logs what the real code presents and then feeds the rest of the workload.  The payloads of the
+workload (contract code, storage values, candidate introductions, block extra data) are sized by a calibration run that
+reads the record lengths the real code wrote, so that records of every kind have lengths k*256-1, k*256, k*256+1.  Every
 (workload log prefix, crash tag, recovery observation, continuation) record is validated by TLC against
 spec/TraceDurability.tla, which holds all comparisons with the never-stopped reference."""
 import concurrent.futures, json, os, random, re, shutil, subprocess
@@ -18,18 +23,22 @@ LEVEL = "fault_enumeration"
 MANIFEST = dict(
     level="fault_enumeration",
     text="TLC model-checks the persistence pipeline design (WAL append, async bitcask writer, stable pointer, context flush, stepwise "
-         "recovery, crash / torn crash at every step incl. during recovery) with the repair flags on, and reproduces the known "
-         "counterexamples with the flags off. The real store is then crashed at every hook-counted write/fsync/index-Put of a seeded "
-         "insertion+stabilisation workload (three schedules of the async writer, torn-write classes, second crash during reopening); a fresh "
+         "recovery scanning tmp.data record by record, crash / torn crash at every step incl. during recovery; every record below / on / "
+         "above a 256-byte alignment boundary of the slot-structured files) with the repair flags on, and reproduces the known "
+         "counterexamples with the flags off or a boundary-wrong scan stride / bitcask advance. The real store is then crashed at every hook-counted write/fsync/index-Put of a seeded "
+         "insertion+stabilisation workload whose code, trie-leaf, account and block records are calibrated onto lengths k*256-1, k*256, "
+         "k*256+1 (three schedules of the async writer, torn-write classes, second crash during reopening); a fresh "
          "process reopens the directory and continues the workload; TLC validates every recorded case against the never-stopped reference.",
     note="Crash model: process death (completed write(2) calls persist), LevelDB atomic per Put. Five genuine defects are carried as named "
          "deviations keyed by crash-point class and failure kind (see known_findings.txt).",
     technique="TLA+ model checking (Durability.tla) + crash-point fault enumeration on the real store.ChainDatabase in sub-processes + "
               "TLC trace validation (TraceDurability.tla)")
 
-TORN_WAL = ["b5", "b18", "b30", "r1", "f1/2", "f7/8", "m1"]      # in header, header only, header+partial body, one slot, half, most, all but one byte
+# in header, header only, header+partial body, one slot, half, most, all but one byte; then the tears around the padding of the
+# last record of the write (a record of length k*256-1 / k*256 / k*256+1 carries 1 / 0 / 255 bytes of padding) and around a slot
+TORN_WAL = ["b5", "b18", "b30", "r1", "f1/2", "f7/8", "m1", "m2", "m255", "m256", "b257", "r2"]
 TORN_CTX = ["b4", "b20", "f1/2", "m1"]
-TORN_CASK = ["b30", "f1/2", "m1"]
+TORN_CASK = ["b30", "f1/2", "m1", "r1", "m255"]
 SCHEDS = ["lag", "drain", "free"]
 
 
@@ -38,6 +47,7 @@ class Runner:
         self.ctx, self.wseed, self.nb = ctx, wseed, nb
         self.base = ctx.path("work", "s%d" % wseed, ".keep")[:-6]
         self.ref = os.path.join(self.base, "ref.json")
+        self.pads = os.path.join(self.base, "pads.json")
         self.n = 0
 
     def vh(self, args, env=None, timeout=120):
@@ -55,13 +65,25 @@ class Runner:
 
     def workload(self, d, sched, env=None, mode="work"):
         return self.vh(["durability-workload", "-dir", os.path.join(d, "db"), "-log", os.path.join(d, "w.ndjson"), "-seed", self.wseed,
-                        "-nb", self.nb, "-sched", sched, "-mode", mode], env=env)
+                        "-nb", self.nb, "-sched", sched, "-mode", mode, "-pads", self.pads], env=env)
+
+    def calibrate(self):
+        """Filler lengths that put one record of every kind per block on a 256-byte boundary class, measured on the real tmp.data."""
+        d = os.path.join(self.base, "calib")
+        os.makedirs(d)
+        r = self.vh(["durability-calib", "-dir", d, "-out", self.pads, "-seed", self.wseed, "-nb", self.nb], env={"VERIF_CRASH_SCHED": "lag"})
+        if r.returncode != 0:
+            self.ctx.crashed(r, r.args)             # a panic of the real code in an uncrashed honest run is a verdict
+            raise __import__("vlib").Broken("calibration of the record lengths failed (rc=%d)\n%s" % (r.returncode, r.stdout[-3000:]))
+        shutil.rmtree(d, ignore_errors=True)
+        return json.loads(open(self.pads).read())
 
     def make_ref(self):
         d = os.path.join(self.base, "refrun")
         os.makedirs(d)
         r = self.workload(d, "free", mode="ref")
         if r.returncode != 0:
+            self.ctx.crashed(r, r.args)
             raise __import__("vlib").Broken("reference run failed (rc=%d)\n%s" % (r.returncode, r.stdout[-3000:]))
         ref = json.loads(open(os.path.join(d, "w.ndjson")).read())
         shutil.rmtree(d, ignore_errors=True)
@@ -74,6 +96,7 @@ class Runner:
         tr = os.path.join(d, "hits.txt")
         r = self.workload(d, sched, env={"VERIF_CRASH_TRACE": tr, "VERIF_CRASH_SCHED": sched})
         if r.returncode != 0:
+            self.ctx.crashed(r, r.args)
             raise __import__("vlib").Broken("dry run %s failed (rc=%d)\n%s" % (sched, r.returncode, r.stdout[-3000:]))
         tags = [ln.split()[1] for ln in open(tr) if ln.strip()]
         end = json.loads(open(os.path.join(d, "w.ndjson")).read().strip().split("\n")[-1])
@@ -134,6 +157,7 @@ class Runner:
         elif r.returncode == 0:
             lines.append(dict(ev="NoCrash"))
         else:
+            self.ctx.crashed(r, r.args)             # the workload process died by itself before its crash point
             raise Broken("workload %s failed (rc=%d)\n%s" % (cid, r.returncode, r.stdout[-3000:]))
         rlog = os.path.join(d, "r.ndjson")
         rec_lines = None
@@ -141,7 +165,7 @@ class Runner:
             # crash during recovery: reopen with an armed crash point, then recover for real
             rclog = os.path.join(d, "recrash.json")
             rr = self.vh(["durability-recover", "-dir", os.path.join(d, "db"), "-ref", self.ref, "-out", rlog, "-seed", self.wseed, "-nb", self.nb,
-                          "-mode", "reopen"], env={"VERIF_CRASH_AT": str(c["recrash"]), "VERIF_CRASH_LOG": rclog})
+                          "-pads", self.pads, "-mode", "reopen"], env={"VERIF_CRASH_AT": str(c["recrash"]), "VERIF_CRASH_LOG": rclog})
             if rr.returncode == 77:
                 rc2 = json.loads(open(rclog).read())
                 rc2["ev"] = "Recrash"
@@ -154,7 +178,8 @@ class Runner:
                 raise Broken("reopen %s failed (rc=%d)\n%s" % (cid, rr.returncode, rr.stdout[-2000:]))
             # status 2: the reopening process panicked by itself; the real recovery below observes the directory
         if rec_lines is None:
-            rr = self.vh(["durability-recover", "-dir", os.path.join(d, "db"), "-ref", self.ref, "-out", rlog, "-seed", self.wseed, "-nb", self.nb])
+            rr = self.vh(["durability-recover", "-dir", os.path.join(d, "db"), "-ref", self.ref, "-out", rlog, "-seed", self.wseed, "-nb", self.nb,
+                          "-pads", self.pads])
             rec_lines = [json.loads(x) for x in open(rlog) if x.strip()] if os.path.exists(rlog) else []
             if rr.returncode != 0 and not (rr.returncode == 2 and ("panic:" in rr.stdout or "fatal error:" in rr.stdout)):
                 raise Broken("recover %s failed without a Go panic (rc=%d)\n%s" % (cid, rr.returncode, rr.stdout[-2000:]))
@@ -179,13 +204,32 @@ class Runner:
         return lines, summ
 
 
-def select(ctx, rng, tags):
-    """Crash cases for one workload seed.  tags[sched] = tag of every hit of the dry run."""
+def commit_batches(lag, layout):
+    """(hit, slots of the block record) of every blockCommit batch write of the lag run: the wal.write hit that is followed by
+    wal.synced and stable.ptr.pre on the main thread, paired in order with the block records that are followed by a height-index
+    record in tmp.data."""
+    main = [(i + 1, t) for i, t in enumerate(lag) if not t.startswith("cask.")]
+    hits = [k for j, (k, t) in enumerate(main) if t == "wal.write" and [x[1] for x in main[j + 1:j + 3]] == ["wal.synced", "stable.ptr.pre"]]
+    lens, flgs = layout["lens"], layout["flgs"]
+    blk = [(lens[i] + 255) // 256 for i in range(len(lens) - 1) if flgs[i] == 1 and flgs[i + 1] == 2]
+    if len(hits) != len(blk) or not hits:
+        raise __import__("vlib").Broken("cannot pair the commit batches of the lag run with their block records (%d writes, %d records)" % (len(hits), len(blk)))
+    return list(zip(hits, blk))
+
+
+def select(ctx, rng, tags, layout):
+    """Crash cases for one workload seed.  tags[sched] = tag of every hit of the dry run; layout = tmp.data of the lag run."""
     quick = ctx.quick()
     cases = []
     lag = tags["lag"]
     main = [i + 1 for i, t in enumerate(lag) if not t.startswith("cask.")]
     M = max(main)
+    # 0. every blockCommit batch torn exactly behind its block record, and behind block + height index (what the kernel leaves when the
+    #    process dies in another thread while this write crosses a page boundary): from genesis on, deterministically
+    for k, q in commit_batches(lag, layout):
+        cases.append(dict(sched="lag", k=k, torn="r%d" % q))
+        if not quick or rng.randrange(3) == 0:
+            cases.append(dict(sched="lag", k=k, torn="r%d" % (q + 1)))
     # 1. every main-thread crash point (the writer lags: nothing has reached the bitcask files yet)
     for k in range(1, M + 1):
         cases.append(dict(sched="lag", k=k, torn=""))
@@ -225,16 +269,67 @@ def select(ctx, rng, tags):
     return out
 
 
+KINDS = {1: "blk", 2: "height", 3: "trie", 4: "acct", 6: "code"}
+
+
+def boundary_stats(ctx, wseed, cal, ref):
+    """Evidence only: which (record kind, length class) pairs the workload's tmp.data contains, and where the on-boundary records sit."""
+    lens, flgs = ref["layout"]["lens"], ref["layout"]["flgs"]
+    cls = {255: "below", 0: "on", 1: "above"}
+    seen, on_pos = {}, []
+    for i, (l, f) in enumerate(zip(lens, flgs)):
+        c = cls.get(l % 256)
+        if c:
+            k = "%s/%s" % (KINDS.get(f, "flag%d" % f), c)
+            seen[k] = seen.get(k, 0) + 1
+            if c == "on":
+                on_pos.append(dict(index=i, followed_by=len(lens) - 1 - i, slots=l // 256))
+    ctx.extra.setdefault("boundary_records", []).append(dict(
+        seed=wseed, records=len(lens), calibration_rounds=cal["rounds"], by_kind_class=seen,
+        targets=["%s@%d:%d" % (t["kind"], t["h"], t["len"]) for t in ref["targets"]],
+        on_boundary_first=on_pos[0] if on_pos else None, on_boundary_last=on_pos[-1] if on_pos else None, on_boundary=len(on_pos)))
+
+
+def pending_stats(ctx, lens):
+    """Evidence only: where the records ON a boundary sat in the tmp.data a dead process left (position, records behind them)."""
+    st = ctx.extra.setdefault("on_boundary_records_pending_at_crash", dict(cases_with=0, first=0, middle=0, last=0, followed_by_0=0, followed_by_1=0,
+                                                                           followed_by_several=0, below=0, above=0))
+    n, hit = len(lens), False
+    for i, l in enumerate(lens):
+        m = l % 256
+        if m == 255:
+            st["below"] += 1
+        elif m == 1:
+            st["above"] += 1
+        elif m == 0:
+            hit = True
+            st["first" if i == 0 else "last" if i == n - 1 else "middle"] += 1
+            st["followed_by_0" if i == n - 1 else "followed_by_1" if i == n - 2 else "followed_by_several"] += 1
+    st["cases_with"] += 1 if hit else 0
+
+
 def design(ctx):
     Broken = __import__("vlib").Broken
+    # two design runs side by side: the pipeline with every record off the alignment boundaries (bigger workload), and the
+    # pipeline with the record length classes free (below / on / above a 256-byte boundary at every position of tmp.data and
+    # of the bitcask file, record-by-record recovery scan)
     if ctx.quick():
-        ctx.tlc_exhaustive("MCDurability", "MCDurability_quick.cfg", timeout=600)
+        runs = [("MCDurability_quick.cfg", 600, False), ("MCDurability_len.cfg", 600, False)]
     else:
-        # vacuity gate on the small configuration (coverage statistics slow TLC down tenfold), then the big one
-        r = ctx.tlc_exhaustive("MCDurability", "MCDurability_quick.cfg", timeout=900, coverage=True, count=False)
-        if r.get("zero_cov"):
-            raise Broken("vacuity gate: actions never taken in the design run: %s" % sorted(set(r["zero_cov"])))
-        ctx.tlc_exhaustive("MCDurability", "MCDurability_thorough.cfg", timeout=1200)
+        # the big configurations, and beside them the vacuity gate on the small ones (coverage statistics slow TLC down)
+        runs = [("MCDurability_thorough.cfg", 1800, False), ("MCDurability_len_thorough.cfg", 1800, False), ("MCDurability_len2_thorough.cfg", 1800, False),
+                ("MCDurability_quick.cfg", 1800, True), ("MCDurability_len.cfg", 1800, True)]
+    ncpu = os.cpu_count() or 8
+
+    def mc(i):
+        __import__("time").sleep(0.3 * i)           # distinct metadir names
+        cfg, to, gate = runs[i]
+        w = max(4, ncpu // 2) if ctx.quick() else (max(4, ncpu // 2) if i == 0 else max(2, ncpu // 8))
+        r = ctx.tlc_exhaustive("MCDurability", cfg, timeout=to, workers=w, coverage=gate, count=not gate)
+        if gate and r.get("zero_cov"):
+            raise Broken("vacuity gate: actions never taken in the design run %s: %s" % (cfg, sorted(set(r["zero_cov"]))))
+    with concurrent.futures.ThreadPoolExecutor(len(runs)) as ex:
+        list(ex.map(mc, range(len(runs))))
     # negative controls: with a repair flag off (= what the code does) TLC must find the corresponding counterexample
     neg = {}
     controls = [("MCDurability_code.cfg", None),                         # everything the code does: some clause fails
@@ -242,7 +337,12 @@ def design(ctx):
                 ("MCDurability_noTornTailZero.cfg", "AccountsExact"),    # Dev_TornWalRecordAccepted
                 ("MCDurability_noAtomicCtx.cfg", "Opens"),               # Dev_TornContextPanics
                 ("MCDurability_noScanPromotes.cfg", "AccountsExact"),    # Dev_BatchAheadOfStablePointer
-                ("MCDurability_noScanPromotesCtx.cfg", "ContextFresh")]  # Dev_StaleCandidatesAfterCrash
+                ("MCDurability_noScanPromotesCtx.cfg", "ContextFresh"),  # Dev_StaleCandidatesAfterCrash
+                # length classes: a scan that steps (end/256+1)*256 instead of FileUtilsAlign is wrong exactly for a record ON a boundary
+                ("MCDurability_negStride.cfg", "DurablyClosed"),         # ... the next record is no longer found by a restart
+                ("MCDurability_negStrideEnd.cfg", "OffsetAtEnd"),        # ... followed by nothing: the append offset is one slot too far
+                ("MCDurability_negStrideRead.cfg", "StableClosed"),      # ... the restarted node cannot read what had been acknowledged
+                ("MCDurability_negAdvance.cfg", "StableClosed")]         # a bitcask offset advanced by len/256*256: wrong exactly ABOVE a boundary
 
     def one(i):
         __import__("time").sleep(0.15 * i)          # distinct metadir names
@@ -273,14 +373,29 @@ def run(ctx):
             ctx.extra.setdefault("workload_seeds_skipped", []).append(wseed)
             continue
         rn = Runner(ctx, wseed, nb)
+        cal = rn.calibrate()
+        if "layout_fail" in cal:
+            # the tmp.data of an UNCRASHED run is not a sequence of records padded to 256 bytes: nothing can be steered or replayed on
+            # such a file.  The observation goes to the trace spec (TRef / LayoutOK), which is what judges it.
+            out = ctx.path("traces", "durability.%d.layout.ndjson" % wseed)
+            with open(out, "w") as fh:
+                fh.write(json.dumps(dict(ev="ref", nb=nb, seed=wseed, hash=[], obs_at=[], script=[], final={}, layout=cal["layout_fail"],
+                                         targets=[]), separators=(",", ":")) + "\n")
+            if ctx.validate("TraceDurability", "TraceDurability.cfg", [out], what="tmp.data layout of the uncrashed run", timeout=600):
+                raise Broken("tmp.data of the uncrashed run does not parse (%s) but the trace spec accepts its layout" % cal["layout_fail"]["stop"])
+            return
         ref = rn.make_ref()
         tags, ends = {}, {}
         for s in SCHEDS:
             tags[s], ends[s] = rn.dry(s)
         ref["final"] = ends["free"]["final"]
+        # what the real code wrote to tmp.data in the run whose writer was held back: every record of the script in write order,
+        # and the records steered onto the boundary classes (TraceDurability.tla: LayoutOK, TargetsHit, BoundaryCovered)
+        ref["layout"], ref["targets"] = ends["lag"]["layout"], ends["lag"]["targets"]
+        boundary_stats(ctx, wseed, cal, ref)
         open(rn.ref, "w").write(json.dumps(ref))
         rng = random.Random(ctx.seed * 1000003 + wseed)
-        cases = select(ctx, rng, tags)
+        cases = select(ctx, rng, tags, ref["layout"])
         ctx.log("workload seed %d: %d hook hits (lag) / %d (drain) / %d (free); %d crash cases" %
                 (wseed, len(tags["lag"]), len(tags["drain"]), len(tags["free"]), len(cases)))
         with concurrent.futures.ThreadPoolExecutor(16) as ex:
@@ -291,6 +406,8 @@ def run(ctx):
             for lines, summ in res:
                 for ln in lines:
                     fh.write(json.dumps(ln, separators=(",", ":")) + "\n")
+                    if ln.get("ev") == "Recover" and "wal" in ln:
+                        pending_stats(ctx, ln["wal"]["lens"])
                 summaries.append(summ)
         files.append(out)
         ncases += len(cases)
@@ -321,5 +438,9 @@ def run(ctx):
         "crash model: process death - bytes of completed write(2) calls persist; not power loss",
         "LevelDB's own files are atomic per Put (goleveldb journal); torn LevelDB writes are not modelled",
         "workload at the store/account level (ChainDatabase + account.Manager: SetBlock, Save, SetStableBlock, SetConfirms); the consensus engine is not involved",
-        "genesis + %d blocks, 7 accounts (3 candidates, 1 contract with code and 2 storage slots); torn classes %s" % (nb, TORN_WAL),
+        "genesis + %d blocks, 7 accounts (3 candidates, 1 contract with a new code version and one rewritten storage slot per block); torn classes %s" % (nb, TORN_WAL),
+        "record-length boundaries: one code / trie-leaf / account / block (or confirm-rewritten block) record per block is steered onto "
+        "k*256-1, k*256 or k*256+1 bytes (head+body as FileUtilsEncode computes it), classes rotating per kind; the 57-byte height-index "
+        "records and the 86/97-byte preimage records have a fixed length and cannot be steered; context.data is not a 256-aligned format "
+        "(64-byte cells) and is covered by the torn-write classes only",
     ]
